@@ -7,3 +7,17 @@ TABLE = {
              note=SIM_NOTE),
 }
 NOT_APPLICABLE = {}
+
+TABLE["C09"] = dict(engine="simworld", technique="property-based testing: Hypothesis-generated connection-loss sequences (incl. failed WebSocket negotiations on reconnect) and schedules against the real server; completion + exactly-once + conformant-resumption oracle",
+    text="1-8 mailbox-connection losses per case at tape-chosen points between any two scheduler events, so commands and replies are lost in flight; oracle at quiescence: equal verifiers, versions, every message once in order, no repeated event, the real server never had to answer `error`, every connection began with `bind`, no error log, no reconnect loop in the fault-free stabilisation.",
+    note=SIM_NOTE)
+TABLE["C18"] = dict(engine="simworld", technique="property-based testing: generated schedules, reorderings, losses and get_*() request timings (several outstanding get_message Deferreds, requests after closed); causal-order / at-most-once / every-Deferred-resolves oracle over the recorded event sequence",
+    text="Both API styles; in Deferred mode each get_*() is requested at tape-chosen times, repeated after closed, with up to 4 concurrent get_message() chains; order clauses are judged where the observation order is the event order (delegate, or all gets requested up front); versions-before-messages only with an order-preserving server.",
+    note=SIM_NOTE)
+TABLE["C08"] = dict(engine="simworld", technique="property-based testing: generated close()/error trigger points x losses x schedules; reference verdict model with [earliest,latest] trigger times + per-resource server-database oracle",
+    text="close() (or a welcome error, injected server error, wrong code, refused connection, crowding third party) at a tape-chosen step from right after create() to after data exchange, once or twice, also from inside delegate callbacks; oracle: one closed notification, nothing after it, verdict of the first trigger, and the real server's tables show the client's own nameplate claim released and mailbox closed with the matching mood. One genuine defect is recorded as a known finding (close() hangs when the server answers `close` with `error`).",
+    note=SIM_NOTE)
+TABLE["C14"] = dict(engine="simworld", technique="property-based testing: generated legal API histories (incl. re-entrant calls and input-helper call orders) x conformant-server behaviours; oracle = no NoTransition/assertion/exception escaping or logged under wormhole/, verdict documented; (machine,state,input) coverage recorded",
+    text="Union of the mailbox-world generators plus a directed part that races code entry against closures the wormhole starts itself. The five unhandled (state,input) pairs this found on the pinned tree were repaired in repo commit 18797ca (fix:) and are kept as regression replays.",
+    note=SIM_NOTE)
+
